@@ -415,6 +415,54 @@ R08_5_EXCEPTIONS = {
 }
 
 
+TIME_UNITS = {86400000: "a day of milliseconds", 86400: "a day of seconds", 1440: "a day of minutes", 3600000: "an hour of milliseconds",
+         3600: "an hour of seconds", 60000: "a minute of milliseconds"}
+
+
+def r08_6(prog, rep):
+    """Borrow/carry pairing in the time-of-day arithmetic: where a quantity is brought back into range by adding or subtracting a whole
+    unit (a day's worth of milliseconds, ...), the same block adjusts the next-higher quantity.  A borrow without its carry is off by
+    exactly that unit."""
+    rid = "R08.6"
+    n = 0
+    for f in prog.all_fns():
+        if not f.cfg or f.file not in ("instant.c", "tzob.c", "evical.c", "echsd.c", "dt-strpf.c"):
+            continue
+        cfg = f.cfg
+        for b, blk in cfg.blocks.items():
+            ws = []
+            for e in blk.elems:
+                x = e["x"]
+                if isinstance(x, dict):
+                    for l, kind, nn in writes(x):
+                        ws.append((lv(l), kind, nn))
+            for t, kind, nn in ws:
+                if kind != "compound" or nn.get("op") not in ("+=", "-="):
+                    continue
+                k = const_eval(f, cfg.resolve(nn["r"]))
+                if k not in TIME_UNITS:
+                    continue
+                # only normalisations: the block is entered under a test of the same quantity
+                guarded = False
+                for p_ in cfg.lpreds.get(b, []):
+                    c = cfg.cond(p_)
+                    if c is not None and any(len(a) == 5 and t in (a[1], a[2]) for a in cond_atoms(c, True) + cond_atoms(c, False)):
+                        guarded = True
+                if not guarded:
+                    continue
+                n += 1
+                key = "%s/borrow %s %s %d" % (f.name, t, nn["op"], k)
+                others = [w for w in ws if w[0] != t]
+                if others:
+                    rep.ok(rid, key, f.loc(nn.get("line")), "%s %s %s is paired with a write to %s" % (t, nn["op"], TIME_UNITS[k], others[0][0]))
+                else:
+                    rep.fail(rid, key, f.loc(nn.get("line")),
+                             "%s is brought back into range by %s %s, but nothing carries that unit into the next-higher quantity in the same block: "
+                             "the result is off by exactly %s" % (t, "adding" if nn["op"] == "+=" else "subtracting", TIME_UNITS[k], TIME_UNITS[k]))
+    if n < 1:
+        rep.broken_("rule=R08.6 expected >=1 borrow of a whole unit, found %d" % n)
+
+
 def month_length_tables(prog, rep, rid, files=None):
     """Every constant table that looks like month lengths (12 entries of 28..31, optionally a leading 0) IS the Gregorian month lengths
     (February 28 or, in a table of upper bounds, 29).  Tables are discovered by shape, so a new copy is checked like the old ones."""
@@ -545,4 +593,6 @@ def run(prog, rep, tier, snap):
     rep.call(r08_4, prog, rep)
     rep.rule("R08.5", "every month wrap carries the year (sibling pattern over all wrap sites)", 12)
     rep.call(r08_5, prog, rep)
+    rep.rule("R08.6", "a borrow of a whole time unit is paired with its carry", 1)
+    rep.call(r08_6, prog, rep)
 READY = True
